@@ -31,4 +31,18 @@ grep -v '^#' selftest/refactors.txt | while IFS="|" read -r pid file expr; do
   rc=$(run $pid); cp /tmp/st_backup $R/$file
   if [ "$rc" = 0 ]; then echo "REF $pid $file: ok (no alarm)"; else echo "REF $pid $file: FALSE ALARM (exit $rc): $(grep VIOLATION /tmp/st.log | sed 's/.*obligation=//' | head -1)"; fi
 done
+# behaviour-preserving refactorings written by sub-agents (selftest/refactor_patches/*.diff): no check of a property whose
+# contracts cover the touched package may alarm
+for p in selftest/refactor_patches/*.diff; do
+  (cd $R && git apply /verif/$p) || { echo "REFPATCH $p: does not apply"; continue; }
+  file=$(grep '^+++ b/' $p | head -1 | sed 's|+++ b/||'); dir=$(dirname $file)
+  props=$(grep -oh "C[0-9][0-9]" $R/$dir/verif_contracts.go 2>/dev/null | sort -u | tr '\n' ' ')
+  res=""
+  for pr in $props; do
+    case $pr in $filter*) ;; *) continue;; esac
+    rc=$(run $pr); [ "$rc" = 0 ] || res="$res $pr:$(grep VIOLATION /tmp/st.log | sed 's/.*obligation=//' | head -1)"
+  done
+  if [ -z "$res" ]; then echo "REFPATCH $(basename $p) [$props]: ok (no alarm)"; else echo "REFPATCH $(basename $p): FALSE ALARM $res"; fi
+  (cd $R && git apply -R /verif/$p)
+done
 rm -rf $R $V
